@@ -74,7 +74,7 @@ def seg_project(evs, what):
 
 def judge(hid, line, lifetimes, h, mline, synth_val, project="full"):
     """-> dict(corr=[...], c02=[...], c03=[...], c12=[...], c17=[...], crashed=bool, nontrivial=tuple)"""
-    J = dict(corr=[], c01=[], c02=[], c03=[], c11=[], c12=[], c17=[], c05=[], c06=[], crashed=False)
+    J = dict(corr=[], corr_c05=[], c01=[], c02=[], c03=[], c11=[], c12=[], c17=[], c05=[], c06=[], crashed=False)
     case = dict(id=hid, history=line)
     recs = h["recs"]
     if h["child"] and not h["child"].startswith("exit:0"):
@@ -113,10 +113,11 @@ def judge(hid, line, lifetimes, h, mline, synth_val, project="full"):
         if r.tag == "EXIT":
             extra = dict(p.split("=") for p in rparts[1:] if "=" in p)
             tail = dict(p.split("=") for p in m["tail"].split() if "=" in p)
+            # panic accounting and lock state belong to C05's correspondence only
             if "panics" in extra and tail.get("RAISED") != extra["panics"]:
-                J["corr"].append(dict(case=case, what=f"number of panics raised differs at L{r.l} EXIT", impl=extra["panics"], model=tail.get("RAISED")))
-            if extra.get("lock") == "ok" and tail.get("UNLOCKED") != "true":
-                J["corr"].append(dict(case=case, what=f"lock state differs at L{r.l} EXIT", impl=extra.get("lock"), model=tail.get("UNLOCKED")))
+                J["corr_c05"].append(dict(case=case, what=f"number of panics raised differs at L{r.l} EXIT", impl=extra["panics"], model=tail.get("RAISED")))
+            if (extra.get("lock") == "ok") != (tail.get("UNLOCKED") == "true"):
+                J["corr_c05"].append(dict(case=case, what=f"lock state differs at L{r.l} EXIT", impl=extra.get("lock"), model=tail.get("UNLOCKED")))
         # refinement: the model's resolve (executing model memory) names the function the call must reach
         if r.vals is not None:
             for t, v in r.vals.items():
@@ -312,6 +313,7 @@ def check_histories(res, prop_key, n, seed, project, max_lifetimes=3, extra_line
         # a history whose child died is judged by the monitors on what was observed before; the (necessarily truncated)
         # comparison with the model counts only for the properties that own crashes
         if not (J["crashed"] and prop_key in ("c03", "c12", "c17", "c06", "c11")): corr += J["corr"]
+        if prop_key == "c05": corr += J["corr_c05"]
         for v in J[prop_key]:
             res.violation(v["what"], v["case"], {k: x for k, x in v.items() if k not in ("what", "case")})
     res.cov["evaluations"] += len(cases)
